@@ -11,6 +11,7 @@ mod genpaths;
 mod bls;
 mod treehash;
 mod merkle;
+mod mempool;
 mod keys;
 mod builders;
 mod gen_types;
@@ -51,6 +52,7 @@ fn main() {
         "C10" => builders::run(&mut o, seed, thorough, replay),
         "C12" => merkle::run(&mut o, seed, thorough, replay),
         "C16" => keys::run(&mut o, seed, thorough, replay),
+        "C19" => mempool::run(&mut o, seed, thorough, replay),
         "C17" => treehash::run(&mut o, seed, thorough, replay),
         "C15" => bls::run(&mut o, seed, thorough, replay),
         "C07" => genpaths::run_c07(&mut o, seed, thorough, replay),
